@@ -1,11 +1,17 @@
 import Cactus.Lemmas.Final
 import Cactus.Lemmas.Basic
 /-!
-# C06 — reference counts and identity are exact (first layer)
+# C06 — reference counts and identity are exact
 
 `adopt`/`unadopt` touch only link tables: counters, values and allocation status of *every* object
-are unchanged (adopt.rs:136-247).  The counting invariant over whole histories (`strong` =
-number of existing handles) is `InvC` in `Cactus.Lemmas.Inv`.
+are unchanged (adopt.rs:136-247).  What is proved here:
+* one-step lemmas: `C06_adopt_counts`, `C06_unadopt_counts`, `C06_ptrEq`, `C06_clone`;
+* whole histories, no hypothesis on the history (with or without the adoption contract, at operation
+  boundaries and mid-teardown): `C06_counts_exact`, `C06_counts_exact_quiescent`
+  (`strong` = number of existing strong handles, `weak` = number of Weak handles + implicit one);
+* example: an object designated by every kind of handle at once, the theorem instantiated and the
+  numbers shown.
+Not proved: counter overflow (`usize` is unbounded `Nat` in the model).
 -/
 namespace Cactus
 open State
@@ -89,5 +95,41 @@ theorem C06_counts_exact_quiescent {s : State} (h : Reachable s) (he : s.err = n
   have := C06_counts_exact h he hl
   simp [State.pend, State.pendW, hq, State.sumList] at this
   exact this
+
+/-! ## Non-vacuity: every kind of handle at once
+
+Object 1 is designated by a program handle, a handle stored in object 0's value (adopted), a handle
+stored in object 2's value (not adopted), a raw pointer, a handle inside an unwrapped value held by
+the program, and by two Weak handles (one of the program, one stored in 0's value). -/
+
+def countsHistory : List (Op × List Nat) :=
+  [(.act .new, []), (.act .new, []), (.act .new, []),       -- objects 0, 1, 2
+   (.act (.clone 1), []), (.act (.link 3 0), []),           -- 0 holds and adopts 1
+   (.act (.clone 1), []), (.act (.store 3 2), []),          -- 2 holds 1, not adopted
+   (.act (.clone 1), []), (.act (.intoRaw 3), []),          -- a raw pointer to 1
+   (.act (.downgrade 1), []), (.act (.downgrade 1), []),
+   (.act (.storeWeak 1 0), []),                             -- Weak to 1: one in 0's value, one in the program
+   (.act .new, []), (.act (.clone 1), []), (.act (.store 4 3), []),
+   (.act (.tryUnwrap 3), []),                               -- an unwrapped value holding a handle to 1
+   (.act (.counts 1), [])]                                  -- `strong_count`, `weak_count` of object 1
+
+/-- the hypotheses of `C06_counts_exact_quiescent` at object 1 of the final state, and the theorem
+instantiated there -/
+example : (run countsHistory).strongNat 1 = (run countsHistory).ext 1 + (run countsHistory).inHeap 1
+    ∧ (run countsHistory).weakNat 1
+        = (run countsHistory).extW 1 + (run countsHistory).inHeapW 1 + 1 :=
+  C06_counts_exact_quiescent (run_reachable countsHistory) (by decide +kernel) (by decide +kernel)
+    (t := 1) (by decide +kernel)
+
+/-- the concrete numbers: 5 strong handles = 3 of the program (handle table, raw pointer, unwrapped
+value) + 2 stored in values; weak cell 3 = 1 Weak of the program + 1 stored + the implicit one; and
+what the program reads through the API: `strong_count = 5`, `weak_count = 2` -/
+example : let s := run countsHistory
+    s.err = none ∧ s.roots = [0, 1, 2] ∧ s.raws = [1] ∧ s.wroots = [1]
+    ∧ s.vals.map (·.held) = [[1]]
+    ∧ s.strongNat 1 = 5 ∧ s.ext 1 = 3 ∧ s.inHeap 1 = 2
+    ∧ s.weakNat 1 = 3 ∧ s.extW 1 = 1 ∧ s.inHeapW 1 = 1
+    ∧ s.log = [.freed 3, .ret 1, .ret 5, .ret 2] := by
+  decide +kernel
 
 end Cactus
